@@ -28,6 +28,8 @@ clause → theorem
 * cancel permanent, first reason wins ....................... `cancel_sticky_first_reason`, `cancel_records_first`
 * every later wait reports it; resume refused ............... `waits_report_cancel`, `resume_refused_after_cancel`
 * the release profile never poisons the mutex ............... `release_never_poisons`
+* the idle watchdog only ever cancels; first reason wins against it; what refreshes its time stamps
+  ........................................................... `watchdog_only_cancels`, `watchdog_keeps_first_reason`, `watchdog_inputs`
 * composition with C12: same effect of every signalling method and same wait pass in both models; C12's
   wake obligation read on the full model ...................... `refines_condvar_op`, `refines_condvar_wait`, `wake_obligation_on_full_model`
 * concurrent callers: every method is one lock region, so every interleaving of calls is a sequential
@@ -228,6 +230,48 @@ theorem single_section_ops :
 
 example : Merge [[.requestResume 7 0 1], [.cancel 0, .recordAck 0 1]] [.cancel 0, .requestResume 7 0 1, .recordAck 0 1] :=
   .pick _ 1 _ _ _ rfl (.pick _ 0 _ _ _ rfl (.pick _ 1 _ _ _ rfl (.done _ (by simp))))
+
+/-! ### the idle watchdog
+
+`spawn_watchdog` scans the registry's snapshot every tick; per transfer it reads `is_cancelled()`, the time
+stamps, and calls `cancel("transfer idle")` if the transfer looks idle. Time is the environment's boolean. -/
+
+/-- The only methods `watchdog_loop` calls on a transfer are `is_cancelled`, `timestamps` and `cancel`
+(re-extracted): `watchdogVisit` is what it can contribute to a history. -/
+theorem watchdog_calls_fact : Gen.watchdogOnlyCancels = true := by decide
+
+/-- A watchdog visit only ever cancels: every other field of the transfer is untouched, and it can only fill
+an *empty* cancel slot. -/
+theorem watchdog_only_cancels (m : OvMode) (s : State) (sawCancelled idle : Bool) :
+    run F m s (watchdogVisit sawCancelled idle) = s ∨
+    (s.cancelled = none ∧ run F m s (watchdogVisit sawCancelled idle) = { s with cancelled := some idleReason }) :=
+  watchdog_visit_effect s sawCancelled idle
+
+/-- First reason wins against the watchdog too, in every interleaving: if the transfer was cancelled with `r`
+at some point, then after any further history — other callers and any number of watchdog visits, whatever they
+saw (even a stale "not cancelled") and whatever the clock says — the reason is still `r`; and a transfer the
+watchdog cancelled stays cancelled with the idle reason. -/
+theorem watchdog_keeps_first_reason (m : OvMode) (s : State) (r : Nat) (h : s.cancelled = some r)
+    (visits : List (Bool × Bool)) (others : List Op) (hist : List Op)
+    (_hm : Merge [others, (visits.map fun v => watchdogVisit v.1 v.2).flatten] hist) :
+    (run F m s hist).cancelled = some r :=
+  cancel_sticky_first_reason m s r h hist
+
+example : (run F .checks (init 8 8) (watchdogVisit false true)).cancelled = some idleReason ∧
+    (run F .checks (run F .checks (init 8 8) [.cancel 3]) (watchdogVisit false true)).cancelled = some 3 := by decide
+
+/-- What feeds the watchdog: `record_sent` refreshes the chunk stamp, `record_ack` the ack stamp — even when
+the ack is for another file or stale and changes nothing else —, `advance_to_file` and an accepted resume both. -/
+theorem watchdog_inputs (m : OvMode) (s : State) (file off : Nat) (h : file ≠ s.file ∨ off ≤ s.acked) :
+    (step F m s (.recordAck file off)).1 = s ∧
+    (s.poisoned = false → stampEffect (.recordAck file off) (step F m s (.recordAck file off)).2 = (false, true)) := by
+  refine ⟨foreign_or_stale_ack_inert m s file off h, ?_⟩
+  intro hp
+  have : (step F m s (.recordAck file off)).2 = .unit := by
+    simp only [step, hp, if_false, Bool.false_eq_true]
+    repeat' split
+    all_goals rfl
+  rw [this]; rfl
 
 /-! ### composition with C12 (the condvar protocol)
 
